@@ -702,6 +702,10 @@ func (g *fgen) block(b *ssa.BasicBlock) {
 		for _, phi := range phis {
 			v := g.defineUnknown(phi, st)
 			li.phiVals[phi] = v.t
+			if allEdgesAlloc(phi, map[*ssa.Phi]bool{}) {
+				// the cell of a per-iteration variable: always a fresh allocation
+				g.fact("true", fmt.Sprintf("(not (= %s 0))", v.t))
+			}
 			if phi.Comment == "rangeindex" && len(phi.Edges) >= 2 {
 				// hidden index of a `range` loop: starts at -1, stepped by +1 while < len
 				if c, ok := phi.Edges[0].(*ssa.Const); ok && c.Value != nil && c.Value.ExactString() == "-1" {
@@ -937,7 +941,12 @@ func (g *fgen) instr(in ssa.Instruction, st *state) {
 			}
 		}
 	case *ssa.Go:
-		g.unsupported("go statement")
+		if g.fc != nil && g.fc.goSync {
+			g.call(x, st)
+			g.assum["go statements of "+g.key+" are modelled as synchronous calls (go-sync): the goroutine is assumed joined before its effects are observed, interference after the statement is not modelled"] = true
+		} else {
+			g.unsupported("go statement")
+		}
 	case *ssa.Send:
 		g.unsupported("channel send")
 	case *ssa.Select:
@@ -991,7 +1000,98 @@ func (g *fgen) alloc(x *ssa.Alloc, st *state) {
 		var keys []string
 		g.leafKeysOf(l, l.path, l.typ, &keys)
 		g.stackLocals = append(g.stackLocals, stackLocal{ref: r, keys: keys})
+	} else if capturedOnly(x) {
+		// a local that escapes only into closures that this function invokes directly
+		// (call / go / defer): callees other than closures cannot write it
+		var keys []string
+		g.leafKeysOf(l, l.path, l.typ, &keys)
+		g.stackLocals = append(g.stackLocals, stackLocal{ref: r, keys: keys, captured: closuresWrite(x)})
 	}
+}
+
+// closuresWrite: some closure binding the alloc does more with it than load it.
+func closuresWrite(a *ssa.Alloc) bool {
+	refs := a.Referrers()
+	if refs == nil {
+		return true
+	}
+	for _, in := range *refs {
+		mc, ok := in.(*ssa.MakeClosure)
+		if !ok {
+			continue
+		}
+		fn, ok := mc.Fn.(*ssa.Function)
+		if !ok {
+			return true
+		}
+		for i, b := range mc.Bindings {
+			if b != ssa.Value(a) || i >= len(fn.FreeVars) {
+				continue
+			}
+			fr := fn.FreeVars[i].Referrers()
+			if fr == nil {
+				return true
+			}
+			for _, u := range *fr {
+				switch x := u.(type) {
+				case *ssa.DebugRef:
+				case *ssa.UnOp:
+					if x.Op != token.MUL {
+						return true
+					}
+				default:
+					return true
+				}
+			}
+		}
+	}
+	return false
+}
+
+// capturedOnly: every use of the alloc is a load, a store into it, or a binding of a
+// closure whose only uses are as the callee of a call, go or defer statement.
+func capturedOnly(a *ssa.Alloc) bool {
+	refs := a.Referrers()
+	if refs == nil {
+		return false
+	}
+	for _, in := range *refs {
+		switch u := in.(type) {
+		case *ssa.DebugRef:
+		case *ssa.UnOp:
+			if u.Op != token.MUL {
+				return false
+			}
+		case *ssa.Store:
+			if u.Val == ssa.Value(a) {
+				return false
+			}
+		case *ssa.MakeClosure:
+			cr := u.Referrers()
+			if cr == nil {
+				return false
+			}
+			for _, ci := range *cr {
+				switch c := ci.(type) {
+				case *ssa.DebugRef:
+				case ssa.CallInstruction:
+					if c.Common().Value != ssa.Value(u) {
+						return false
+					}
+					for _, arg := range c.Common().Args {
+						if arg == ssa.Value(u) {
+							return false
+						}
+					}
+				default:
+					return false
+				}
+			}
+		default:
+			return false
+		}
+	}
+	return true
 }
 
 // restoreLoopLocals: at a loop head everything the loop may write is havocked; the cells
@@ -1867,4 +1967,27 @@ func (g *fgen) modIfObligations(st *state, pos token.Pos, site string) {
 	}
 	g.oblige("frame-if", site+"/keys", implies(c0, and(cs...)), pos)
 	g.obls[len(g.obls)-1].src = "under `" + fc.modIf.cond.src + "` only " + strings.Join(fc.modIf.items, ", ") + " may change"
+}
+
+// allEdgesAlloc: every value flowing into the phi is the address of a local allocation.
+func allEdgesAlloc(phi *ssa.Phi, seen map[*ssa.Phi]bool) bool {
+	if seen[phi] {
+		return true
+	}
+	seen[phi] = true
+	if _, ok := phi.Type().Underlying().(*types.Pointer); !ok {
+		return false
+	}
+	for _, e := range phi.Edges {
+		switch x := e.(type) {
+		case *ssa.Alloc:
+		case *ssa.Phi:
+			if !allEdgesAlloc(x, seen) {
+				return false
+			}
+		default:
+			return false
+		}
+	}
+	return true
 }
